@@ -102,8 +102,26 @@ func yamlVariants(insts []refplay.Inst) []yamlVariant {
 		{"yaml-directive", "%YAML 1.1\n---\n" + plain},
 		{"no-final-newline", strings.TrimSuffix(plain, "\n")},
 		{"blank-lines-between-instances", strings.ReplaceAll(plain, "\n- ", "\n\n\n- ")},
-		{"deeper-indentation", strings.ReplaceAll(strings.ReplaceAll(plain, "\n  ", "\n      "), "\n      -", "\n      -")},
+		{"deeper-indentation", deeper(plain)},
 	}
+}
+
+// deeper re-indents a block-style document: items at column 4, their children at column 8.
+func deeper(plain string) string {
+	var b strings.Builder
+	for _, l := range strings.SplitAfter(plain, "\n") {
+		switch {
+		case strings.HasPrefix(l, "- "):
+			b.WriteString("-   " + l[2:])
+		case strings.HasPrefix(l, "    "):
+			b.WriteString("        " + l[4:])
+		case strings.HasPrefix(l, "  "):
+			b.WriteString("    " + l[2:])
+		default:
+			b.WriteString(l)
+		}
+	}
+	return b.String()
 }
 
 func yamlFormEval(e *Env, c yamlFormCase) {
